@@ -1971,11 +1971,11 @@ func gen(r *hxlib.Run, emit func(hxlib.Case)) {
 			nilstarts--
 			emitScn(genScenario(r, "nilstart"))
 		}
-		if i%100 == 11 && modstops > 0 {
+		if i%60 == 11 && modstops > 0 {
 			modstops--
 			emitScn(lifeScenario(r, "modstop"))
 		}
-		if i%100 == 61 && stoptmos > 0 {
+		if i%60 == 41 && stoptmos > 0 {
 			stoptmos--
 			emitScn(lifeScenario(r, "stoptmo"))
 		}
